@@ -173,6 +173,168 @@ def r6_xs_serialisers(idx, r):
         r.require(any(dotted(c.func) == "serializeXSSettings" for c in iter_calls(dump.node)), "XSSettingDef.dump", dump, msg="the setting must be dumped through serializeXSSettings")
 
 
+# ------------------------------------------------------------------------------------------------
+class _Reject(Exception):
+    pass
+
+
+_UNK = object()
+
+
+def _sfold(idx, m, n):
+    try:
+        return idx.fold(m, n)
+    except AnalysisError:
+        return _UNK
+
+
+def _vol_apply(idx, mod, sch, val):
+    """Apply a voluptuous schema given as an AST to a constant; returns the (possibly coerced) value,
+    raises _Reject when the schema definitely refuses it, returns _UNK when outside the fragment."""
+    if isinstance(sch, ast.Constant):
+        if sch.value is None:
+            if val is None:
+                return val
+            raise _Reject("expected None")
+        return val if val == sch.value else _UNK
+    if isinstance(sch, ast.Name) and sch.id in ("int", "float", "str", "bool", "list", "dict"):
+        t = {"int": int, "float": float, "str": str, "bool": bool, "list": list, "dict": dict}[sch.id]
+        if isinstance(val, t) and not (t is int and isinstance(val, bool)):
+            return val
+        raise _Reject(f"expected {sch.id}")
+    if isinstance(sch, ast.List):
+        if not isinstance(val, list):
+            raise _Reject("expected a list")
+        if not sch.elts:
+            return val if not val else _UNK
+        out = []
+        for v in val:
+            acc, last = _UNK, None
+            for alt in sch.elts:
+                try:
+                    acc = _vol_apply(idx, mod, alt, v)
+                    break
+                except _Reject as e:
+                    last = e
+                    acc = None
+            if acc is None:
+                raise _Reject(f"list element {v!r}: {last}")
+            if acc is _UNK:
+                return _UNK
+            out.append(acc)
+        return out
+    if isinstance(sch, ast.Call):
+        d = dotted(sch.func)
+        kw = {k.arg: k.value for k in sch.keywords}
+        if d in ("vol.Schema", "voluptuous.Schema") and sch.args:
+            return _vol_apply(idx, mod, sch.args[0], val)
+        if d in ("vol.Coerce", "voluptuous.Coerce") and sch.args and isinstance(sch.args[0], ast.Name) and sch.args[0].id in ("int", "float", "str"):
+            t = {"int": int, "float": float, "str": str}[sch.args[0].id]
+            try:
+                return t(val)
+            except (TypeError, ValueError):
+                raise _Reject(f"expected {sch.args[0].id}")
+        if d in ("vol.Range", "voluptuous.Range"):
+            def cst(n):
+                v = _sfold(idx, mod, n) if n is not None else None
+                return v
+            lo, hi = cst(kw.get("min")), cst(kw.get("max"))
+            li = cst(kw.get("min_included")) if "min_included" in kw else True
+            hi_i = cst(kw.get("max_included")) if "max_included" in kw else True
+            if _UNK in (lo, hi, li, hi_i):
+                return _UNK
+            if not isinstance(val, (int, float)) or isinstance(val, bool) and False:
+                raise _Reject("value not comparable with the range")
+            if lo is not None and (val < lo or (val == lo and not li)):
+                raise _Reject(f"value must be {'at least' if li else 'higher than'} {lo}")
+            if hi is not None and (val > hi or (val == hi and not hi_i)):
+                raise _Reject(f"value must be {'at most' if hi_i else 'lower than'} {hi}")
+            return val
+        if d in ("vol.In", "voluptuous.In") and sch.args:
+            opts = _sfold(idx, mod, sch.args[0])
+            if isinstance(opts, (list, tuple, set)):
+                if val in opts:
+                    return val
+                raise _Reject(f"value not among {list(opts)[:6]}")
+            return _UNK
+        if d in ("vol.All", "voluptuous.All"):
+            for a in sch.args:
+                val = _vol_apply(idx, mod, a, val)
+                if val is _UNK:
+                    return _UNK
+            return val
+        if d in ("vol.Any", "voluptuous.Any"):
+            unk, last = False, None
+            for a in sch.args:
+                try:
+                    v = _vol_apply(idx, mod, a, val)
+                except _Reject as e:
+                    last = e
+                    continue
+                if v is _UNK:
+                    unk = True
+                    continue
+                return v
+            if unk:
+                return _UNK
+            raise _Reject(f"no alternative accepts it (last: {last})")
+    return _UNK
+
+
+def r7_default_in_schema(idx, r):
+    """Full-style files write every default; reading validates each value. A default that its own
+    schema / enforced option list rejects makes the written file unreadable."""
+    n = 0
+    for m in idx.modules.values():
+        if not m.name.startswith("armi.") or ".tests" in m.name or m.name.endswith(".tests"):
+            continue
+        for f in list(m.all_funcs()):
+            for c in iter_calls(f.node):
+                d = dotted(c.func)
+                if not d or d.split(".")[-1] != "Setting" or d.split(".")[0] not in ("setting", "Setting", "settings"):
+                    continue
+                kw = {k.arg: k.value for k in c.keywords}
+                name = c.args[0] if c.args else kw.get("name")
+                dflt = c.args[1] if len(c.args) > 1 else kw.get("default")
+                if name is None or dflt is None:
+                    continue
+                nm = _sfold(idx, m, name)
+                key = f"{m.relpath.rsplit('/', 1)[-1]}:{nm if isinstance(nm, str) else norm(name)}"
+                try:
+                    dv = ast.literal_eval(dflt)
+                except (ValueError, SyntaxError):
+                    dv = _sfold(idx, m, dflt)
+                    if dv is _UNK or (dv is None and not (isinstance(dflt, ast.Constant) and dflt.value is None)):
+                        r.undecided(key, f, "default is not a literal", node=c)
+                        continue
+                n += 1
+                sch = kw.get("schema")
+                opts, enf = kw.get("options"), kw.get("enforcedOptions")
+                if sch is None or (isinstance(sch, ast.Constant) and sch.value is None):
+                    if opts is not None and enf is not None and _sfold(idx, m, enf) is True:
+                        ov = _sfold(idx, m, opts)
+                        if isinstance(ov, (list, tuple)) and ov:  # an empty option list is not enforced (Setting._setSchema)
+                            r.require(dv in ov, key, f, node=c, msg=f"default {dv!r} is not among the enforced options {list(ov)[:8]}: a full-style file cannot be read back")
+                            continue
+                    r.ok(key, f, node=c, msg="schema derived from the default's own type")
+                    continue
+                while isinstance(sch, ast.Tuple) and len(sch.elts) == 1:
+                    sch = sch.elts[0]
+                try:
+                    out = _vol_apply(idx, m, sch, dv)
+                except _Reject as e:
+                    r.violate(key, f, f"the default {dv!r} is rejected by the setting's own schema `{norm(sch)[:80]}` ({e}): the full style writes it and reading the file back fails", node=c)
+                    continue
+                if out is _UNK:
+                    r.undecided(key, f, f"schema `{norm(sch)[:60]}` outside the evaluated fragment", node=c)
+                elif out != dv and not (isinstance(out, float) and isinstance(dv, int) and out == dv):
+                    r.violate(key, f, f"the schema turns the default {dv!r} into {out!r}: a setting left at default does not stay at default after a full-style round trip", node=c)
+                else:
+                    r.ok(key, f, node=c)
+    if n < 100:
+        raise AnalysisError(f"only {n} Setting(...) definitions with literal defaults found")
+
+
 def run(idx, chk):
     chk.explanation = (
         "C17: schema validation dominating the store in Setting.setValue and the frozen writers of Setting._value; the renamed name being the one "
@@ -188,3 +350,5 @@ def run(idx, chk):
                  necessary="what is written must read back equal")
     chk.run_rule("R17.5", "flag lists: dump through Flags.toString, schema through Flags.fromString, every element kept", lambda r: r5_flags(idx, r), floor=4, necessary="flag-list settings round trip by name")
     chk.run_rule("R17.6", "the two serialisers of cross-section options omit exactly the None values", lambda r: r6_xs_serialisers(idx, r), floor=5, necessary="nested cross-section settings round trip incl. explicit False/0")
+    chk.run_rule("R17.7", "every setting's default is accepted unchanged by its own schema / enforced options", lambda r: r7_default_in_schema(idx, r), floor=100,
+                 necessary="'settings left at default stay at default' in every style: the full style writes defaults and reading validates them")
